@@ -160,7 +160,7 @@ Inductive jcase :=
 | JDesJson97 (t : list orow) (fixed : bool) (v : jval) (src : keysrc) (algs : option (list str)) (expect : jres)
 | JSerCompact (t : list orow) (h : list (str * pv)) (payload : bytes) (src : keysrc)
               (algs : option (list str)) (expect : res bytes)
-| JSerCompact97 (t : list orow) (h : list (str * pv)) (payload : bytes) (src : keysrc)
+| JSerCompact97 (t : list orow) (lenient : bool) (h : list (str * pv)) (payload : bytes) (src : keysrc)
                 (algs : option (list str)) (expect : res bytes)
 | JSerFlat (t : list orow) (m : smember) (payload : bytes) (src : keysrc) (algs : option (list str)) (expect : res jval)
 | JSerGen (t : list orow) (ms : list smember) (payload : bytes) (src : keysrc) (algs : option (list str)) (expect : res jval)
@@ -183,7 +183,7 @@ Definition jcase_run (c : jcase) : (cres + jres) + (res bytes + (res jval + res 
   | JDesCompact97 t tok src payload algs _ => inl (inl (show_compact (M_deser_compact97 t tok src payload algs)))
   | JDesJson97 t fixed v src algs _ => inl (inr (show_json (M_deser_json97 t fixed v src algs)))
   | JSerCompact t h payload src algs _ => inr (inl (M_ser_compact t h payload src algs))
-  | JSerCompact97 t h payload src algs _ => inr (inl (M_ser_compact97 t h payload src algs))
+  | JSerCompact97 t lenient h payload src algs _ => inr (inl (M_ser_compact97 t lenient h payload src algs))
   | JSerFlat t m payload src algs _ => inr (inr (inl (M_sign_flat t m payload (reg15 algs) src)))
   | JSerGen t ms payload src algs _ => inr (inr (inl (M_sign_general t ms payload (reg15 algs) src)))
   | JSerJson97 t fixed m payload src algs _ => inr (inr (inl (M_ser_json97 t fixed m payload src algs)))
@@ -203,7 +203,7 @@ Definition jcase_check (c : jcase) : bool :=
   | JValidate _ _ _ _ e, inr (inr (inr r)) => res_eqb Bool.eqb r e
   | JAlgVerify _ _ _ _ _ e, inr (inr (inr r)) => res_eqb Bool.eqb r e
   | JSerCompact _ _ _ _ _ e, inr (inl r) => res_eqb beqb r e
-  | JSerCompact97 _ _ _ _ _ e, inr (inl r) => res_eqb beqb r e
+  | JSerCompact97 _ _ _ _ _ _ e, inr (inl r) => res_eqb beqb r e
   | JDetachCompact _ e, inr (inl r) => res_eqb beqb r e
   | JAlgSign _ _ _ _ e, inr (inl r) => res_eqb beqb r e
   | JSerFlat _ _ _ _ _ e, inr (inr (inl r)) => res_eqb jval_eqb r e
